@@ -860,3 +860,94 @@ func (vc *VC) frameObligations(fr *Frame, envPre *Env, exit *State) {
 		vc.addObl(fr, exit, "frame", name, goal, &Clause{Kind: "assigns", Text: "only the listed locations change (" + name + ")", File: con.File, Line: con.Line}, token.NoPos)
 	}
 }
+
+
+// ---------- type-graph completeness of a position list ----------
+
+// checkTypePaths enumerates every access path from the root type to a value of the target type
+// (through fields - embedded ones by their name -, slice/array elements `[]`, map values `[]`, map
+// keys `[key]`; pointers are transparent) and compares the set with the declared one. The walk stops at
+// interfaces (recorded as opaque) and at a named type already on the current path (recursion).
+// Decided by enumeration over go/types, not by the SMT back end.
+func (e *Engine) checkTypePaths(tp *TypePathSpec) *FuncResult {
+	res := &FuncResult{Key: "typegraph:" + tp.Root, Name: fmt.Sprintf("typegraph/%s->%s", tp.Root, tp.Target), File: tp.File, Mode: "types"}
+	pkg := e.typesPkg(tp.Pkg)
+	if pkg == nil {
+		res.BindErrors = append(res.BindErrors, fmt.Sprintf("%s:%d: typepaths: package %s not loaded", tp.File, tp.Line, tp.Pkg))
+		return res
+	}
+	root, target := e.parseType(pkg, tp.Root), e.parseType(pkg, tp.Target)
+	if root == nil || target == nil {
+		res.BindErrors = append(res.BindErrors, fmt.Sprintf("%s:%d: typepaths: unknown type %s or %s", tp.File, tp.Line, tp.Root, tp.Target))
+		return res
+	}
+	actual := map[string]bool{}
+	opaque := map[string]bool{}
+	var walk func(t types.Type, path string, stack []types.Type)
+	walk = func(t types.Type, path string, stack []types.Type) {
+		if types.Identical(t, target) {
+			actual[path] = true
+			return
+		}
+		if n, ok := t.(*types.Named); ok {
+			for _, s := range stack {
+				if types.Identical(s, n) {
+					return
+				}
+			}
+			stack = append(stack, n)
+		}
+		switch u := t.Underlying().(type) {
+		case *types.Struct:
+			for i := 0; i < u.NumFields(); i++ {
+				p := u.Field(i).Name()
+				if path != "" {
+					p = path + "." + p
+				}
+				walk(u.Field(i).Type(), p, stack)
+			}
+		case *types.Pointer:
+			walk(u.Elem(), path, stack)
+		case *types.Slice:
+			walk(u.Elem(), path+"[]", stack)
+		case *types.Array:
+			walk(u.Elem(), path+"[]", stack)
+		case *types.Map:
+			walk(u.Key(), path+"[key]", stack)
+			walk(u.Elem(), path+"[]", stack)
+		case *types.Interface:
+			opaque[path+" ("+t.String()+")"] = true
+		}
+	}
+	walk(root, "", nil)
+	declared := map[string]bool{}
+	for _, p := range tp.Paths {
+		declared[p] = true
+	}
+	mk := func(name, clause, status string) {
+		res.Obls = append(res.Obls, &Obligation{Name: res.Name + "/" + name, Kind: "typegraph", Func: res.Name, Clause: clause,
+			Status: status, Solver: "go/types enumeration", Props: []string{tp.Prop}, Pos: fmt.Sprintf("%s:%d", tp.File, tp.Line)})
+	}
+	var keys []string
+	for p := range actual {
+		keys = append(keys, p)
+	}
+	sort.Strings(keys)
+	for _, p := range keys {
+		if declared[p] {
+			mk("covered:"+p, "position "+p+" of "+tp.Root+" holds a "+tp.Target+" and is accounted for by the contracts", "proved")
+		} else {
+			mk("uncovered:"+p, "position "+p+" of "+tp.Root+" holds a "+tp.Target+" but is not in the list of positions the contracts account for", "refuted")
+		}
+	}
+	for _, p := range tp.Paths {
+		if !actual[p] {
+			mk("stale:"+p, "declared position "+p+" does not exist in the type graph of "+tp.Root, "refuted")
+		}
+	}
+	for p := range opaque {
+		res.Assumed = append(res.Assumed, "type graph of "+tp.Root+" is opaque at "+p+": contents not covered")
+	}
+	sort.Strings(res.Assumed)
+	return res
+}
